@@ -1567,6 +1567,7 @@ func runC07(r *Run, rng *Rng, replay string) {
 	c07MalformedStream(r, f, rng, nMal)
 	c07SharedWitness(r)
 	c07RangeOrder(r, rng, thorough)
+	c07SharedText(r, rng, thorough)
 	for i := 0; i < nWb; i++ {
 		t0 := time.Now()
 		c07Workbook(r, rng, i)
@@ -1616,5 +1617,50 @@ func c07RangeOrder(r *Run, rng *Rng, thorough bool) {
 		rf := &c07Ref{shape: rng.Intn(2), c1: rng.Range(1, 9), r1: rng.Range(1, 13), c2: rng.Range(1, 9), r2: rng.Range(1, 13)}
 		rf.ac1, rf.ar1, rf.ac2, rf.ar2 = rng.Bool(), rng.Bool(), rng.Bool(), rng.Bool()
 		run(rf)
+	}
+}
+
+// c07SharedText ties Impl.parseSharedFormula / shiftCell to the real code through the public API: a
+// shared formula is set on J10 with a range that surrounds it, and GetCellFormula of a cell of that
+// range returns the text derived for the offset (dCol,dRow) — negative offsets included. Transcript op:
+// shf <dCol> <dRow> <tok>...
+func c07SharedText(r *Run, rng *Rng, thorough bool) {
+	sharedT, ref := xl.STCellFormulaTypeShared, "F6:N14"
+	g := &c07Gen{rng: rng, sheets: []string{"Sheet1", "Data2"}, names: []string{"TaxRate"}}
+	n := 250
+	if thorough {
+		n = 3000
+	}
+	fixed := []string{"A1", "$A$1", "A$1", "$A1", "A1:B2", "$A1:B$2", "A:B", "$A:B", "1:2", "$1:2", "C3:D", "XFD1048576", "XFA1048570:XFD1048576",
+		"SUM(A1:A3)*\"a\"\"b\"", "A1 B2", "Sheet1!A1", "Sheet1!A1:B2", "TaxRate", "A1:B2:C3", "a1", "A01", "-A1%", "B2+{1,2;3,4}"}
+	for i := 0; i < n+len(fixed); i++ {
+		var formula string
+		if i < len(fixed) {
+			formula = fixed[i]
+		} else {
+			formula = g.tree(rng.Range(1, 3)).String()
+		}
+		f := xl.NewFile()
+		if err := f.SetCellFormula("Sheet1", "J10", formula, xl.FormulaOpts{Type: &sharedT, Ref: &ref}); err != nil {
+			f.Close()
+			continue
+		}
+		for k := 0; k < 3; k++ {
+			dc, dr := rng.Range(-4, 4), rng.Range(-4, 4)
+			if i < len(fixed) && k == 0 {
+				dc, dr = 2, 3
+			}
+			if dc == 0 && dr == 0 {
+				continue
+			}
+			got, err := f.GetCellFormula("Sheet1", c07Name(10+dc, 10+dr))
+			if err != nil {
+				continue
+			}
+			r.Op(fmt.Sprintf("shf %d %d%s", dc, dr, c07TokWire(c07Tokens(formula))), hx(got))
+			r.Case("shf:"+formula+fmt.Sprint(dc, dr), got != formula)
+			r.Stat("shf:derived")
+		}
+		f.Close()
 	}
 }
